@@ -603,6 +603,13 @@ func (ro *RedisOutput) parseAofReplayUnits(replayQuit usync.WaitCloser, reader *
 				selectDB = n
 			} else if ro.outFilter.FilterCmd(sCmd) {
 				ignoreCmd = true
+				if !bypass && inTxn && onlyBisyncExpiryDeletions(txnCommands) && isBisyncMarkerCommand(makeCmd(sCmd, argv, endOffset)) {
+					// the leading marker of a transaction the tool wrote itself must reach the marker
+					// test below even when the configured command blacklist names its command (SET):
+					// otherwise the mirrored transaction is taken for a foreign one and sent back.
+					// Only the marker is exempted, it is never replayed; client commands stay filtered.
+					ignoreCmd = false
+				}
 			} else if strings.EqualFold(sCmd, "publish") && len(argv) > 0 && strings.EqualFold(string(argv[0]), "__sentinel__:hello") {
 				ignoresentinel = true
 			}
